@@ -4,7 +4,7 @@ import numpy as np
 
 from mc import palette
 
-MATRIX_KINDS_H = ['real_symmetric', 'complex_hermitian', 'degenerate', 'block_invariant', 'reversal', 'identity', 'kernel']
+MATRIX_KINDS_H = ['real_symmetric', 'complex_hermitian', 'degenerate', 'block_invariant', 'reversal', 'identity', 'kernel', 'weakly_coupled']
 MATRIX_KINDS_G = ['real_general', 'complex_general', 'block_invariant_general', 'nilpotent_chain']
 START_KINDS = ['complex', 'real']
 PRESENTATIONS = ['fresh', 'buffer', 'view']
@@ -62,6 +62,24 @@ def build(rng, n, kind, start_kind, k_inv):
         v = np.zeros(n, dtype=complex)
         v[:k] = start(k)
         return A, v, k
+    if kind == 'weakly_coupled':
+        # two blocks coupled with strength 1e-5, start vector in the first block: the Krylov space is the full space, but one
+        # off-diagonal coefficient is of order 1e-5 - far above the breakdown threshold, the iteration has to continue through it
+        k = max(1, n // 2)
+        U1 = unitary(rng, k)
+        A1 = (U1 * (np.linspace(-1.0, 1.0, k) if k > 1 else np.array([0.3]))) @ U1.conj().T
+        A = np.zeros((n, n), dtype=complex)
+        A[:k, :k] = (A1 + A1.conj().T) / 2
+        if n - k > 0:
+            U2 = unitary(rng, n - k)
+            A2 = (U2 * (np.linspace(-2.5, 2.2, n - k) if n - k > 1 else np.array([-2.5]))) @ U2.conj().T
+            A[k:, k:] = (A2 + A2.conj().T) / 2
+            C = 1e-5 * palette.generic(rng, (k, n - k), 'complex')
+            A[:k, k:] = C
+            A[k:, :k] = C.conj().T
+        v = np.zeros(n, dtype=complex)
+        v[:k] = start(k)
+        return A, v, n
     if kind == 'kernel':
         # start vector exactly in the kernel: A v = 0 exactly (zero-energy eigenstate), Krylov dimension 1
         k = max(1, n // 2)
